@@ -30,7 +30,9 @@ def tus(tier):
 def tasks(tier, seed):
     T = [{'name': n, 'fn': f, 'seed': seed, 'timeout': 60, 'tier': tier} for n, f in
          (('positive', 'run_positive'), ('increasing', 'run_increasing'), ('smooth at the switch', 'run_smooth'), ('inverse tau->T->tau', 'run_inv1'), ('inverse T->tau->T', 'run_inv2'),
-          ('backward rule', 'run_backward'), ('identity map', 'run_identity'), ('fp toTime', 'run_fp_totime'), ('fp toTau', 'run_fp_totau'))]
+          ('backward rule', 'run_backward'), ('identity map', 'run_identity'), ('fp toTime', 'run_fp_totime'), ('fp toTau', 'run_fp_totau'), ('fp backward', 'run_fp_backward'))]
+    if tier == 'thorough':
+        T.append({'name': 'fp round trip (attempt)', 'fn': 'run_fp_roundtrip', 'seed': seed, 'timeout': 60, 'tier': tier})
     return T
 
 
@@ -290,6 +292,53 @@ def run_fp_totau(t):
     fin = O.Scenario(ID, t['name'] + ' (paths)', TU, s, timeout=t['timeout'])
     fin.check('both branches recorded', len(runs) >= 2, '%d paths' % len(runs))
     return out + [fin]
+
+
+@C.run_scenarios
+def run_fp_backward(t):
+    cap = 120 if t['tier'] == 'quick' else 900
+    s = D.Script()
+    s.var('tau', 0.4)
+    s.var('g', 0.7)
+    s.var('T', 1.3)
+    s.add('tm.backward quad tau T g B')
+    out = []
+    runs = fp_paths(s, 'tau', -1e6, 1e6)
+    for dec, g in runs:
+        sc = O.Scenario(ID, '%s path%s' % (t['name'], ''.join(map(str, dec))), TU, s, decisions=dec, timeout=t['timeout'], dag=g)
+        B = g.outs['B']
+        rng = {'tau': (-1e6, 1e6), 'g': (-1e6, 1e6), 'T': (1e-6, 1e6)}
+        fp_check(sc, g, dec, 'binary64: backward(tau, T, g) is finite for |tau|, |g| <= 1e6', [B], rng, [('finite', '(n%d - n%d == 0.0)' % (B, B))], cap, {'out': 'B', 'cond': 'x == x and abs(x) != inf'})
+        gn = g.varid['g']
+        fp_check(sc, g, dec, 'binary64: backward keeps the sign of the incoming gradient (the derivative of the map is never negative)', [B], rng,
+                 [('sign', '(n%d >= 0.0 && n%d >= 0.0) || (n%d <= 0.0 && n%d <= 0.0)' % (gn, B, gn, B))], cap, {'out': 'B', 'cond': 'x == x'})
+        out.append(sc)
+    fin = O.Scenario(ID, t['name'] + ' (paths)', TU, s, timeout=t['timeout'])
+    fin.check('both branches recorded', len(runs) >= 2, '%d paths' % len(runs))
+    return out + [fin]
+
+
+@C.run_scenarios
+def run_fp_roundtrip(t):
+    """attempted, not claimed unless a back end finishes: |toTime(toTau(T)) - T| <= 1e-9 T in binary64"""
+    s = D.Script()
+    s.var('T', 1.7)
+    s.add('tm.toTau quad T U')
+    s.add('bind UU U')
+    s.add('tm.toTime quad UU V')
+    out = []
+    for dec, g in fp_paths(s, 'T', 1e-3, 1e3):
+        sc = O.Scenario(ID, '%s path%s' % (t['name'], ''.join(map(str, dec))), TU, s, decisions=dec, timeout=t['timeout'], dag=g)
+        V, Tn = g.outs['V'], g.varid['T']
+        rng = {'T': (1e-3, 1e3)}
+        wt = FP.emit_c(g, [V], rng, g.path, [], witness=True)
+        st, detail, dt = FP.cbmc(wt, 120)
+        if st != 'failed':
+            continue   # infeasible branch combination in binary64 (or no verdict): nothing to claim on it
+        fp_check(sc, g, dec, 'binary64 (attempt): |toTime(toTau(T)) - T| <= 1e-9 T for T in [1e-3, 1e3]', [V], rng,
+                 [('round trip', 'fabs(n%d - n%d) <= 1e-9 * n%d' % (V, Tn, Tn))], 600, {'out': 'V', 'cond': 'x == x'})
+        out.append(sc)
+    return out
 
 
 def validation(tier, seed):
